@@ -188,6 +188,53 @@ def lean_listop_request(spec, op):
     return req, pool
 
 
+def draft_container_problem(live, rng):
+    """create a journey (or a step) outside the system that holds one of the system's objects twice, delete it,
+    and compare who uses its members before, while and after"""
+    from efootprint.core.usage.usage_journey import UsageJourney
+    from efootprint.core.usage.usage_journey_step import UsageJourneyStep
+    from efootprint.abstract_modeling_classes.source_objects import SourceValue
+    from efootprint.constants.units import u
+    sp = live.spec
+    if rng.random() < 0.5 and any(st["jobs"] for st in sp["steps"].values()):
+        names = sorted({j for st in sp["steps"].values() for j in st["jobs"]})
+        kind = "step"
+    else:
+        names = sorted(sp["steps"])
+        kind = "journey"
+    if not names:
+        return None
+    rng.shuffle(names)
+    members = names[:rng.randint(1, min(3, len(names)))]
+    word = members + [members[0]]
+    rng.shuffle(word)
+    objs = [live.rs.objs[n] for n in word]
+    uses = lambda: {n: sorted(c.id for c in live.rs.objs[n].modeling_obj_containers) for n in members}  # noqa
+    before = uses()
+    if kind == "step":
+        draft = UsageJourneyStep("draft step", user_time_spent=SourceValue(1 * u.min), jobs=objs)
+    else:
+        draft = UsageJourney("draft journey", uj_steps=objs)
+    info = {"kind": kind, "members": word}
+    during = uses()
+    for n in members:
+        if sorted(before[n] + [draft.id]) != during[n]:
+            return ("draft-container-not-registered", f"{n} is in the draft {kind} but reports being used by {during[n]} (before: {before[n]})", info)
+    draft.self_delete()
+    after = uses()
+    for n in members:
+        if after[n] != before[n]:
+            return ("dangling-after-container-deletion", f"after deleting the draft {kind} {word}, {n} reports being used by {after[n]} (before the draft existed: {before[n]})", info)
+        o = live.rs.objs[n]
+        stale = [c for c in o.contextual_modeling_obj_containers if c.modeling_obj_container is not None and c.modeling_obj_container.id == draft.id]
+        if stale:
+            return ("dangling-after-container-deletion", f"after deleting the draft {kind} {word}, {n} still holds {len(stale)} back-reference(s) to it", info)
+    bad = link_state_problems(live)
+    if bad:
+        return (f"{bad[0][0]}:after-container-deletion", bad[0][1], info)
+    return None
+
+
 def shard(args):
     seed, n_sys, n_ops = args
     rng = random.Random(seed)
@@ -280,6 +327,16 @@ def shard(args):
                         pass
         except Exception as e:  # noqa
             out["violations"].append({"signature": f"C16:guards-raise:{type(e).__name__}", "detail": str(e)[:200], "replay": {"spec": spec, "ops": list(ops)}})
+        # a draft container that holds the same object twice, created next to the system and deleted again:
+        # its members are used by exactly what used them before
+        try:
+            with watchdog(30):
+                why = None if link_state_problems(live) else draft_container_problem(live, rng)
+                out["methods"]["draft-container"] = out["methods"].get("draft-container", 0) + 1
+                if why:
+                    out["violations"].append({"signature": f"C16:{why[0]}", "detail": why[1], "replay": {"spec": spec, "ops": list(ops), "draft": why[2]}})
+        except Exception as e:  # noqa
+            out["violations"].append({"signature": f"C16:draft-container-raises:{type(e).__name__}", "detail": str(e)[:200], "replay": {"spec": spec, "ops": list(ops)}})
         from harness.engine_oracles import sysoracles_hash
         out["hashes"].append(sysoracles_hash(spec, ops))
         if len(out["samples"]) < 1:
